@@ -232,8 +232,8 @@ def patch():
     return spikeglx, neuropixel
 
 
-def np24_meta_text(nsites, shank_of, ns_token, rng="0.5", maxint=8192, fs_txt="30000", extra=None):
+def np24_meta_text(nsites, shank_of, ns_token, rng="0.5", maxint=8192, fs_txt="30000", extra=None, flags=None):
     """NP2.4 metadata: site i on shank shank_of[i] (concrete), column i%2, row i//2 (per shank rows need not be unique)"""
-    sites = [(shank_of[i], i % 2, i // 2) for i in range(nsites)]
+    sites = [(shank_of[i], i % 2, i // 2) + (() if flags is None else (flags[i],)) for i in range(nsites)]
     return sglx.imec_meta_text("NP2.4", sites, ns=ns_token, fs_hz=fs_txt, rng=rng, maxint=maxint, extra=extra,
                                file_size=None)
